@@ -151,7 +151,7 @@ Section Arith.
 
   Lemma gen_sin_value_is_model (A0 A1 : axfacts K) (M : rfk_members K) (phase ampl : K) (nb xs ys n x : Z) :
     rfk_sin_value K ftan fsin fasin A0 A1 M phase ampl nb xs ys n x =
-    rf_sin (m_revolutionpart M) ampl (m_V_RF M) (m_V0 M) (ax_delta A1) (ax_scale A1 "ElectronVolt")
+    rf_sin (m_revolutionpart M) ampl (m_V_RF M) (m_V0 M) (ax_delta A1) (ax_scale A1 U_ElectronVolt)
            (fsin (ax_at A0 x * m_bl2phase M + phase)).
   Proof. unfold rfk_sin_value, rf_sin. rewrite gen_sin_arg_is_model. fring. Qed.
 
@@ -175,16 +175,16 @@ Section Arith.
 
   Lemma gen_dm_value_is_model (A0 A1 : axfacts K) (slip : list K) (E0 : K) (nb xs ys y : Z) :
     dm_value K ftan fsin fasin A0 A1 slip E0 nb xs ys y =
-    drift_off slip (ax_scale A1 "ElectronVolt") E0 (ax_delta A0) (ax_at A1 y).
+    drift_off slip (ax_scale A1 U_ElectronVolt) E0 (ax_delta A0) (ax_at A1 y).
   Proof.
     unfold dm_value, drift_off, acc_loop.
     rewrite (acc_loop_sum (fun i => nthK slip i * ax_at A1 y *
-                                    kpow (ax_at A1 y * ax_scale A1 "ElectronVolt" / E0) (Z.to_nat i))).
+                                    kpow (ax_at A1 y * ax_scale A1 U_ElectronVolt / E0) (Z.to_nat i))).
     2:{ intros acc i. fring. }
     rewrite drift_sum_as_fsum. unfold zlen, zrange. rewrite Nat2Z.id, map_map.
     replace (map (fun x : nat => nthK slip (Z.of_nat x) * ax_at A1 y *
-                   kpow (ax_at A1 y * ax_scale A1 "ElectronVolt" / E0) (Z.to_nat (Z.of_nat x))) (seq 0 (List.length slip)))
-      with (map (fun j : nat => nth j slip 0 * ax_at A1 y * kpow (ax_at A1 y * ax_scale A1 "ElectronVolt" / E0) (0 + j))
+                   kpow (ax_at A1 y * ax_scale A1 U_ElectronVolt / E0) (Z.to_nat (Z.of_nat x))) (seq 0 (List.length slip)))
+      with (map (fun j : nat => nth j slip 0 * ax_at A1 y * kpow (ax_at A1 y * ax_scale A1 U_ElectronVolt / E0) (0 + j))
                 (seq 0 (List.length slip))).
     2:{ apply map_ext. intros j. unfold nthK. rewrite Nat2Z.id. reflexivity. }
     fring.
@@ -206,7 +206,7 @@ Section Fields.
     if m_linear M then
       rf_lin (ftan (m_angle M)) (ax_zerobin A0) (m_syncphase M - phase) (m_bl2phase M) (ax_delta A0) ampl x
     else
-      rf_sin (m_revolutionpart M) ampl (m_V_RF M) (m_V0 M) (ax_delta A1) (ax_scale A1 "ElectronVolt")
+      rf_sin (m_revolutionpart M) ampl (m_V_RF M) (m_V0 M) (ax_delta A1) (ax_scale A1 U_ElectronVolt)
              (fsin (ax_at A0 x * m_bl2phase M + phase)).
 
   (** RFKickMap::_calcKick: every bunch's block of [_offset] receives the field; entries beyond the nb blocks keep
@@ -231,7 +231,7 @@ Section Fields.
       + intros o j _ _. apply gen_lin_value_is_model.
     - unfold rfk_sin_outer, rfk_sin_inner.
       apply (fill2_blocks K nb nx _ _
-               (fun x => rf_sin (m_revolutionpart M) ampl (m_V_RF M) (m_V0 M) (ax_delta A1) (ax_scale A1 "ElectronVolt")
+               (fun x => rf_sin (m_revolutionpart M) ampl (m_V_RF M) (m_V0 M) (ax_delta A1) (ax_scale A1 U_ElectronVolt)
                                 (fsin (ax_at A0 x * m_bl2phase M + phase)))); try assumption.
       + intros o j. unfold rfk_sin_index. lia.
       + intros o j _ _. apply gen_sin_value_is_model.
@@ -252,7 +252,7 @@ Section Fields.
   Qed.
 
   (** *** the constructors *)
-  Definition bl2phase_of (A0 : axfacts K) (c two_pi f_RF : K) : K := ax_scale A0 "Meter" / c * f_RF * two_pi.
+  Definition bl2phase_of (A0 : axfacts K) (c two_pi f_RF : K) : K := ax_scale A0 U_Meter / c * f_RF * two_pi.
 
   Lemma lin_members (A0 A1 : axfacts K) (c two_pi angle f_RF : K) :
     let M := rfk_ctor_lin_members K ftan fsin fasin A0 A1 c two_pi angle f_RF in
@@ -300,7 +300,7 @@ Section Fields.
     let st := gen_rfk_sin_ctor ftan fsin fasin nb nx ny A0 A1 c two_pi revolutionpart V_RF f_RF V0 in
     (forall i, rs_offset st i =
                if in_range i (nx * nb) then
-                 rf_offsets nx (fun x => rf_sin revolutionpart 1 V_RF V0 (ax_delta A1) (ax_scale A1 "ElectronVolt")
+                 rf_offsets nx (fun x => rf_sin revolutionpart 1 V_RF V0 (ax_delta A1) (ax_scale A1 U_ElectronVolt)
                                             (fsin (ax_at A0 x * bl2phase_of A0 c two_pi f_RF + fasin (V0 / V_RF)))) i
                else 0) /\
     (forall i, rs_built st i = rs_offset st i).
@@ -319,13 +319,13 @@ Section Fields.
   Theorem gen_drift_ctor_is_model (nb nx ny : Z) (A0 A1 : axfacts K) (slip : list K) (E0 : K) :
     let st := gen_drift_ctor ftan fsin fasin nb nx ny A0 A1 slip E0 in
     (forall i, rs_offset st i =
-               drift_offsets ny (fun y => drift_off slip (ax_scale A1 "ElectronVolt") E0 (ax_delta A0) (ax_at A1 y)) i) /\
+               drift_offsets ny (fun y => drift_off slip (ax_scale A1 U_ElectronVolt) E0 (ax_delta A0) (ax_at A1 y)) i) /\
     (forall i, rs_built st i = rs_offset st i).
   Proof.
     unfold gen_drift_ctor, dm_prog. cbn [fold_left rfd_exec rs_offset rs_built].
     split; [|intros i; reflexivity].
     intros i. unfold gen_drift_fill, drift_offsets, rfd_xsize, rfd_ysize, dm_kick_is_x. cbn match.
-    rewrite (fill1_range K _ _ _ (fun y => drift_off slip (ax_scale A1 "ElectronVolt") E0 (ax_delta A0) (ax_at A1 y))).
+    rewrite (fill1_range K _ _ _ (fun y => drift_off slip (ax_scale A1 U_ElectronVolt) E0 (ax_delta A0) (ax_at A1 y))).
     - reflexivity.
     - intros y. unfold dm_index. lia.
     - intros y _. apply gen_dm_value_is_model.
@@ -379,21 +379,21 @@ Section Consumers.
   Theorem drift_offsets_general_generated (nb nx ny : Z) (A0 A1 : axfacts K) (a a1 a2 E0 : K) (y : Z) :
     (0 <= y < ny)%Z -> E0 <> 0 -> ax_delta A0 <> 0 ->
     let st := gen_drift_ctor ftan fsin fasin nb nx ny A0 A1 [a; a1; a2] E0 in
-    let p := ax_at A1 y in let r := p * ax_scale A1 "ElectronVolt" / E0 in
+    let p := ax_at A1 y in let r := p * ax_scale A1 U_ElectronVolt / E0 in
     rs_offset st y = (a * p + a1 * p * r + a2 * p * (r * r)) / ax_delta A0 /\ rs_built st y = rs_offset st y.
   Proof.
     intros Hy He Hd st p r.
     destruct (gen_drift_ctor_is_model K ftan fsin fasin nb nx ny A0 A1 [a; a1; a2] E0) as [E B].
     fold st in E, B. split; [|apply B]. rewrite E.
     destruct (C08_drift_offsets_all_bunches K ny
-                (fun y0 => drift_off [a; a1; a2] (ax_scale A1 "ElectronVolt") E0 (ax_delta A0) (ax_at A1 y0)) y Hy) as [Ey _].
+                (fun y0 => drift_off [a; a1; a2] (ax_scale A1 U_ElectronVolt) E0 (ax_delta A0) (ax_at A1 y0)) y Hy) as [Ey _].
     rewrite Ey. apply drift_offsets_general; assumption.
   Qed.
 
   (** an axis whose coordinates are delta*(i - zerobin) - what the generated Ruler constructor gives ([gen_axis_at]) *)
   Definition axis_linear (A : axfacts K) : Prop := forall i, ax_at A i = (fz i - ax_zerobin A) * ax_delta A.
 
-  Lemma gen_axis_at (steps : Z) (mn mx : K) (sc : string -> K) :
+  Lemma gen_axis_at (steps : Z) (mn mx : K) (sc : runit -> K) :
     mn <> mx -> fz (K:=K) (steps - 1) <> 0 ->
     axis_linear (gen_axis steps mn mx sc) /\ ax_delta (gen_axis steps mn mx sc) <> 0 /\
     ax_zerobin (gen_axis steps mn mx sc) = ruler_zerobin steps mn mx /\
@@ -424,7 +424,7 @@ Section Consumers.
     assert (Ev : rs_offset st y = a * (ax_delta A1 / ax_delta A0) * (fz y - ax_zerobin A1)).
     { rewrite E.
       destruct (C08_drift_offsets_all_bunches K ny
-                  (fun y0 => drift_off slip (ax_scale A1 "ElectronVolt") E0 (ax_delta A0) (ax_at A1 y0)) y Hy) as [Ey _].
+                  (fun y0 => drift_off slip (ax_scale A1 U_ElectronVolt) E0 (ax_delta A0) (ax_at A1 y0)) y Hy) as [Ey _].
       rewrite Ey, Hax.
       destruct Hs as [-> | ->]; unfold drift_off; cbn [drift_sum kpow]; field; repeat split; assumption. }
     split; [exact Ev|]. split; [|apply B].
@@ -436,7 +436,7 @@ Section Consumers.
       the static linear RF map holds tan(angle)*(zerobin_0 - x) in the entry of every bunch and, for
       alpha1 = alpha2 = 0, the drift map holds angle*(delta_1/delta_0)*(y - zerobin_1) *)
   Theorem main_rf_field_generated (O : Ops K) (L : leaf -> K) (B : bleaf -> bool)
-      (nb n : Z) (mn0 mx0 mn1 mx1 : K) (sc0 sc1 : string -> K) (c two_pi : K) (b x : Z) :
+      (nb n : Z) (mn0 mx0 mn1 mx1 : K) (sc0 sc1 : runit -> K) (c two_pi : K) (b x : Z) :
     (0 <= b < nb)%Z -> (0 <= x < n)%Z ->
     let A0 := gen_axis n mn0 mx0 sc0 in let A1 := gen_axis n mn1 mx1 sc1 in
     let st := gen_rfk_lin_ctor ftan fsin fasin nb n n A0 A1 c two_pi (gen_angle K O L B) (gen_linrf_f_RF K O L B) in
@@ -445,7 +445,7 @@ Section Consumers.
   Proof. intros Hb Hx A0 A1 st. apply (rf_ctor_linear_generated nb n n A0 A1); assumption. Qed.
 
   Theorem main_drift_field_generated (O : Ops K) (L : leaf -> K) (B : bleaf -> bool)
-      (nb n : Z) (mn0 mx0 mn1 mx1 : K) (sc0 sc1 : string -> K) (y : Z) :
+      (nb n : Z) (mn0 mx0 mn1 mx1 : K) (sc0 sc1 : runit -> K) (y : Z) :
     (0 <= y < n)%Z -> L O_getAlpha1 = 0 -> L O_getAlpha2 = 0 ->
     mn0 <> mx0 -> mn1 <> mx1 -> fz (K:=K) (n - 1) <> 0 -> gen_drift_E0 K O L B <> 0 ->
     let A0 := gen_axis n mn0 mx0 sc0 in let A1 := gen_axis n mn1 mx1 sc1 in
@@ -484,7 +484,7 @@ Section Consumers.
     (0 <= y < ny)%Z ->
     let multi := gen_drift_ctor ftan fsin fasin nb nx ny A0 A1 slip E0 in
     let single := gen_drift_ctor ftan fsin fasin 1 nx ny A0 A1 slip E0 in
-    rs_offset multi y = drift_off slip (ax_scale A1 "ElectronVolt") E0 (ax_delta A0) (ax_at A1 y) /\
+    rs_offset multi y = drift_off slip (ax_scale A1 U_ElectronVolt) E0 (ax_delta A0) (ax_at A1 y) /\
     rs_offset multi y = rs_offset single y /\ rs_built multi y = rs_offset multi y /\
     (forall i, (ny <= i)%Z -> rs_offset multi i = 0).
   Proof.
@@ -492,7 +492,7 @@ Section Consumers.
     destruct (gen_drift_ctor_is_model K ftan fsin fasin nb nx ny A0 A1 slip E0) as [Em Bm].
     destruct (gen_drift_ctor_is_model K ftan fsin fasin 1 nx ny A0 A1 slip E0) as [Es _].
     destruct (C08_drift_offsets_all_bunches K ny
-                (fun y0 => drift_off slip (ax_scale A1 "ElectronVolt") E0 (ax_delta A0) (ax_at A1 y0)) y Hy) as [Ey Ez].
+                (fun y0 => drift_off slip (ax_scale A1 U_ElectronVolt) E0 (ax_delta A0) (ax_at A1 y0)) y Hy) as [Ey Ez].
     split; [|split; [|split]].
     - rewrite Em. exact Ey.
     - rewrite Em, Es. reflexivity.
@@ -512,7 +512,7 @@ Section GridQc.
 
   Theorem centroid_step_generated :
     forall n nb it, valid_it it -> (2 <= it)%Z -> (1 < n < 2 ^ 30)%Z -> (0 < nb)%Z ->
-    forall (O : Ops QcF) (L : leaf -> Qc) (B : bleaf -> bool) (mn0 mx0 mn1 mx1 c two_pi : Qc) (sc0 sc1 : string -> Qc),
+    forall (O : Ops QcF) (L : leaf -> Qc) (B : bleaf -> bool) (mn0 mx0 mn1 mx1 c two_pi : Qc) (sc0 sc1 : runit -> Qc),
       mn0 <> mx0 -> mn1 <> mx1 -> L O_getAlpha1 = 0%Qc -> L O_getAlpha2 = 0%Qc -> gen_drift_E0 QcF O L B <> 0%Qc ->
       let A0 := gen_axis (K:=QcF) n mn0 mx0 sc0 in
       let A1 := gen_axis (K:=QcF) n mn1 mx1 sc1 in
@@ -575,7 +575,7 @@ Section Dyn.
   (** the members DynRF's hand-written [_calcKick] reads, taken from the generated records *)
   Definition rfmap_of (nx : Z) (A0 A1 : axfacts K) (M : rfk_members K) : rfmap K :=
     mkRF (m_linear M) (ftan (m_angle M)) (m_revolutionpart M) (m_V_RF M) (m_V0 M) (m_syncphase M) (m_bl2phase M)
-         nx (ax_zerobin A0) (ax_delta A0) (ax_delta A1) (ax_scale A1 "ElectronVolt") (ax_at A0).
+         nx (ax_zerobin A0) (ax_delta A0) (ax_delta A1) (ax_scale A1 U_ElectronVolt) (ax_at A0).
 
   Theorem kick_entry_generated (nb nx ny : Z) (A0 A1 : axfacts K) (M : rfk_members K) (phase ampl : K)
       (st : rfd_state K) (b x : Z) :
